@@ -166,14 +166,16 @@ void h_end_of_block(void)
 /* O6.3  mtf_one(), fast path (index < 16): from EVERY position of the first row inside the slide and every content. */
 void h_mtf_fast(void)
 {
-  uint8_t slide[SLIDE_LENGTH];            /* arbitrary content (never written by the harness) */
+#define FAST_SLIDE 64                     /* the fast path only uses the 16 bytes of the first row: a 64-byte window stands in for the 8192-byte slide
+                                            (with the real size both SAT back ends run out of memory and z3 gives no answer) */
+  uint8_t slide[FAST_SLIDE];              /* arbitrary content (never written by the harness) */
   uint8_t *row[NUM_ROWS];
   V_IN(unsigned, off0);
   V_IN(unsigned, c);
   V_IN(unsigned, q);
   unsigned i; uint8_t before[ROW_WIDTH];
-  V_ASSUME(off0 <= SLIDE_LENGTH - ROW_WIDTH && c < ROW_WIDTH && q < SLIDE_LENGTH);
-  for (i = 0; i < NUM_ROWS; i++) row[i] = slide + i * ROW_WIDTH;       /* rows 1..15 are not touched by the fast path */
+  V_ASSUME(off0 <= FAST_SLIDE - ROW_WIDTH && c >= 1 && c < ROW_WIDTH && q < FAST_SLIDE);      /* retrieve() passes MTF values 1..255 (0 is the end-of-block symbol) */
+  for (i = 0; i < NUM_ROWS; i++) row[i] = 0;                            /* rows 1..15 are not touched by the fast path (a use would be a NULL dereference) */
   row[0] = slide + off0;
   for (i = 0; i < ROW_WIDTH; i++) before[i] = slide[off0 + i];
   uint8_t qv = slide[q];
@@ -184,7 +186,7 @@ void h_mtf_fast(void)
     V_ASSERT(ok, "mtf_one (index < 16): the element moves to the front, the ones before it shift by one, the rest stay"); }
   V_ASSERT((q >= off0 && q < off0 + ROW_WIDTH) || slide[q] == qv, "mtf_one (index < 16): nothing outside the first row changes");
   if (c == 15) V_CANARY("last position of the row");
-  if (c == 0) V_CANARY("front element");
+  if (c == 1) V_CANARY("second element");
 }
 
 
